@@ -24,6 +24,10 @@ def alphabet(dt, rich):
             A.append(L.tick(dt, "Q", [["@", k, ["R", i, 2.3]]]))
             A.append(L.tick(dt, "Q", [["@", k, ["C", i, None]]]))
         A.append(L.tick(dt, "Q", [["@", k, ["R", 0, 2.0]]]))
+    if not rich:
+        # starting-price orders stay live (not complete) until the starting price is reconciled
+        A.append(L.tick(dt, "Q", [["@", 0, L.P("MOC")]]))
+        A.append(L.tick(dt, "Q", [["@", 1, L.P("LOC")]]))
     A.append(L.tick(dt, "Q", [["@", 0, L.P("PBn")], ["@", 1, L.P("PBn")]]))
     # an order refused through one client (market suspended) is offered again through the other client
     A.append(L.tick(dt, "OPN", [["@", 0, L.P("PBn")]]))
